@@ -371,6 +371,53 @@ def r7_enumeration(ctx, prog):
             r.ok(f['qname'], site, 'up to %d entries opened in %d unrolled rounds' % (most, 2), file=f['file'], line=f['line'])
 
 
+def r8_one_rewrite_per_update(ctx, prog):
+    """Outside a transaction every mutator of an object file rewrites the file once: old image -> new image.  A mutator that reaches store() twice (directly, or by calling another
+    mutator first) puts an intermediate image on disk - the attribute being replaced is *absent* there - and a crash between the two rewrites leaves exactly that: a token without its
+    PIN blob or flags, a key without the attribute that was being changed."""
+    r = ctx.rule('C16.R8', 'an attribute update rewrites the object file at most once (no intermediate image between two stores)', floor=2, engine='E3 call-event counting over enumerated paths, own-method calls followed')
+    memo = {}
+
+    def stores(f, depth=0):
+        if f['qname'] in memo:
+            return memo[f['qname']]
+        memo[f['qname']] = (0, None)
+        own = {short(g['qname']): g for g in prog.methods_of(f['class'])} if f.get('class') else {}
+        o = outcomes(f, prog, {'inTransaction': 0}, record=set(own) | {'store'}, rounds=1, cap=256)
+        best = (0, None)
+        for oc in o.outcomes:
+            n, trail = 0, []
+            for e in oc['events']:
+                if e[0] != 'call':
+                    continue
+                if e[1] == 'store':
+                    n += 1
+                    trail.append('store@%s' % e[3])
+                elif e[1] in own and own[e[1]] is not f and depth < 3 and own[e[1]].get('body') is not None:
+                    k, _ = stores(own[e[1]], depth + 1)
+                    if k:
+                        n += k
+                        trail.append('%s@%s (%d)' % (e[1], e[3], k))
+            if n > best[0]:
+                best = (n, (trail, oc['path']))
+        memo[f['qname']] = best
+        return best
+    for cls in ('ObjectFile',):
+        for f in sorted(prog.methods_of(cls), key=lambda f: f['line']):
+            if short(f['qname']) not in ('setAttribute', 'deleteAttribute') or f.get('body') is None:
+                continue
+            ctx.analysed(f)
+            n, info = stores(f)
+            site = 'rewrites per call of %s' % short(f['qname'])
+            if n > 1:
+                r.violation(f['qname'], site, 'a path outside a transaction rewrites the object file %d times (%s): the image between the rewrites lacks the attribute being replaced, and a crash there leaves a token or key without it' % (n, ', '.join(info[0])),
+                            file=f['file'], line=f['line'], path=info[1])
+            elif n == 0:
+                r.undecided(f['qname'], site, 'no path reaches store()', file=f['file'], line=f['line'])
+            else:
+                r.ok(f['qname'], site, 'one store on the longest path', file=f['file'], line=f['line'])
+
+
 def run(ctx):
     prog = ctx.prog('ossl-file')
     r1_exact_reads(ctx, prog)
@@ -380,6 +427,9 @@ def run(ctx):
     r5_single_durability_point(ctx, prog)
     r6_loader_no_throw(ctx, prog)
     r7_enumeration(ctx, prog)
+    r8_one_rewrite_per_update(ctx, prog)
+    from rules import c09
+    c09.r6_commit_last(ctx, prog, rule_id='C16.R9')
 
 
 MUTANTS = [
